@@ -4,15 +4,18 @@ package main
 // Both inject an in-package test with `go test -overlay` so /repo is untouched.
 
 import (
+	"bufio"
 	"bytes"
 	"context"
 	"encoding/json"
 	"fmt"
 	"go/types"
+	"io"
 	"os"
 	"os/exec"
 	"path/filepath"
 	"regexp"
+	"sort"
 	"strings"
 	"time"
 
@@ -41,9 +44,9 @@ func runOverlayTest(repo, pkgDir, testName, testSrc, runPattern string, timeout 
 	ovb, _ := json.Marshal(ov)
 	ovf := filepath.Join(dir, testName+".overlay.json")
 	os.WriteFile(ovf, ovb, 0644)
-	ctx, cancel := context.WithTimeout(context.Background(), timeout+30*time.Second)
+	ctx, cancel := context.WithTimeout(context.Background(), timeout+60*time.Second)
 	defer cancel()
-	cmd := exec.CommandContext(ctx, "go", "test", "-overlay", ovf, "-vet=off", "-count=1", "-timeout", fmt.Sprintf("%ds", int(timeout.Seconds())), "-run", runPattern, "./"+pkgDir)
+	cmd := exec.CommandContext(ctx, "go", "test", "-overlay", ovf, "-vet=off", "-v", "-count=1", "-timeout", fmt.Sprintf("%ds", int(timeout.Seconds())), "-run", runPattern, "./"+pkgDir)
 	cmd.Dir = repo
 	cmd.Env = goEnv()
 	var buf bytes.Buffer
@@ -82,182 +85,403 @@ func runBounded(repo, verif string, bc BoundedCheck, thorough bool, seed int) ma
 	return res
 }
 
-// ---------- counterexample replay ----------
+// ---------- model sessions ----------
 
-// tryReplay: for a sat obligation of a function whose inputs are simple
-// (integers, booleans, slices of integers/simple structs, simple struct
-// receivers), build the inputs from the model, call the real function and compare the
-// real outcome with the outcome the solver predicted.
-func tryReplay(w *World, o *Obligation, repo, replayDir string) *replayResult {
-	vc := o.vc
-	if vc.fn == nil {
-		return nil
-	}
-	rr := &replayResult{fields: map[string]interface{}{}}
-	fn := vc.fn
-	// terms to query
-	var terms []string
-	for _, p := range fn.Params {
-		terms = append(terms, modelTermsFor(vc, vc.vals[p], p.Type(), 0)...)
-	}
-	script := o.script(false)
-	script = strings.TrimSuffix(strings.TrimSpace(script), "(check-sat)") + "\n(check-sat)\n"
-	model, out := getModel(script, terms, o.Result.Solver, 20)
-	if model == nil {
-		rr.fields["replay"] = "model extraction failed: " + truncate(out, 500)
-		return rr
-	}
-	rr.fields["model"] = model
-	gen := &replayGen{vc: vc, model: model, w: w}
-	src, ok := gen.generate(o)
-	if !ok {
-		rr.fields["replay"] = "inputs of this function cannot be built by the replay generator: " + gen.reason
-		return rr
-	}
-	rr.fields["replay_test"] = src
-	pkgDir := strings.TrimPrefix(pkgOfKey(vc.funcName), modPrefix)
-	outp, err := runOverlayTest(repo, pkgDir, "zz_verif_replay_test.go", src, "TestVerifReplay", 60*time.Second)
-	rr.fields["replay_output"] = truncate(outp, 3000)
-	if err != nil && !strings.Contains(outp, "REPLAY-OUTCOME") {
-		rr.fields["replay"] = "replay test did not run"
-		return rr
-	}
-	rr.fields["replay"] = "executed against the real code"
-	// the generated test prints REPLAY-VIOLATED when the real outcome falsifies the clause
-	if strings.Contains(outp, "REPLAY-VIOLATED") {
-		rr.confirmed = true
-	}
-	return rr
+type modelSession struct {
+	cmd *exec.Cmd
+	in  io.WriteCloser
+	out *bufio.Reader
 }
 
-func modelTermsFor(vc *VC, t string, typ types.Type, depth int) []string {
-	if t == "" || depth > 2 {
-		return nil
+func startModelSession(script string) (*modelSession, string) {
+	cmd := exec.Command("z3-new", "-in", "-T:30")
+	in, _ := cmd.StdinPipe()
+	outp, _ := cmd.StdoutPipe()
+	cmd.Stderr = cmd.Stdout
+	if err := cmd.Start(); err != nil {
+		return nil, err.Error()
 	}
-	switch u := typ.Underlying().(type) {
-	case *types.Basic:
-		return []string{t}
-	case *types.Struct:
-		var res []string
-		for i := 0; i < u.NumFields(); i++ {
-			res = append(res, modelTermsFor(vc, fmt.Sprintf("(%s %s)", vc.d.accessor(typ, i), t), u.Field(i).Type(), depth+1)...)
+	ms := &modelSession{cmd: cmd, in: in, out: bufio.NewReader(outp)}
+	body := strings.TrimSuffix(strings.TrimSpace(script), "(check-sat)")
+	io.WriteString(in, "(set-option :produce-models true)\n"+body+"\n(check-sat)\n")
+	for {
+		line, err := ms.out.ReadString('\n')
+		if err != nil {
+			ms.close()
+			return nil, "solver ended: " + line
 		}
-		return res
-	case *types.Slice:
-		return []string{"(s-len " + t + ")", "(s-off " + t + ")", "(s-arr " + t + ")"}
-	case *types.Pointer:
-		if s, ok := isStruct(u.Elem()); ok {
-			var res []string
-			res = append(res, t)
-			for i := 0; i < s.NumFields(); i++ {
-				ft := s.Field(i).Type()
-				if _, isS := isStruct(ft); isS {
-					continue
-				}
-				hn, hs := vc.d.fieldHeap(u.Elem(), i)
-				if _, declared := vc.heapSorts[hn]; !declared {
-					continue
-				}
-				_ = hs
-				res = append(res, modelTermsFor(vc, fmt.Sprintf("(select %s!0 %s)", hn, t), ft, depth+1)...)
+		l := strings.TrimSpace(line)
+		if l == "sat" {
+			return ms, ""
+		}
+		if l == "unsat" || l == "unknown" || l == "timeout" {
+			ms.close()
+			return nil, l
+		}
+	}
+}
+
+func (ms *modelSession) close() {
+	ms.in.Close()
+	ms.cmd.Process.Kill()
+	ms.cmd.Wait()
+}
+
+// value evaluates a term in the current model; returns "" on failure.
+func (ms *modelSession) value(term string) string {
+	io.WriteString(ms.in, "(get-value ("+term+"))\n")
+	// read one balanced s-expression
+	var sb strings.Builder
+	depth := 0
+	started := false
+	for {
+		b, err := ms.out.ReadByte()
+		if err != nil {
+			return ""
+		}
+		if !started && (b == ' ' || b == '\n') {
+			continue
+		}
+		sb.WriteByte(b)
+		if b == '(' {
+			depth++
+			started = true
+		}
+		if b == ')' {
+			depth--
+			if depth == 0 {
+				break
 			}
-			return res
+		}
+		if !started && b != '(' {
+			// error message line
+			rest, _ := ms.out.ReadString('\n')
+			_ = rest
+			return ""
 		}
 	}
-	return nil
-}
-
-type replayGen struct {
-	vc     *VC
-	w      *World
-	model  map[string]string
-	reason string
-	extraQ []string
+	vals := parseGetValues(sb.String())
+	if len(vals) == 0 {
+		return ""
+	}
+	return vals[0]
 }
 
 var negNum = regexp.MustCompile(`^\(- (\d+)\)$`)
+var plainNum = regexp.MustCompile(`^\d+$`)
 
 func smtNum(s string) (string, bool) {
 	s = strings.TrimSpace(s)
 	if m := negNum.FindStringSubmatch(s); m != nil {
 		return "-" + m[1], true
 	}
-	if regexp.MustCompile(`^\d+$`).MatchString(s) {
+	if plainNum.MatchString(s) {
 		return s, true
 	}
 	return "", false
 }
 
-func (g *replayGen) lit(t string, typ types.Type, qual types.Qualifier) (string, bool) {
-	switch u := typ.Underlying().(type) {
-	case *types.Basic:
-		v, ok := g.model[t]
-		if !ok {
-			g.reason = "no model value for " + t
-			return "", false
-		}
-		if u.Info()&types.IsBoolean != 0 {
-			return v, true
-		}
-		if u.Info()&types.IsInteger != 0 {
-			n, ok := smtNum(v)
-			if !ok {
-				g.reason = "non-numeric model value " + v
-				return "", false
-			}
-			return fmt.Sprintf("%s(%s)", types.TypeString(typ, qual), n), true
-		}
-		g.reason = "unsupported basic type " + typ.String()
-		return "", false
-	case *types.Struct:
-		var fs []string
-		for i := 0; i < u.NumFields(); i++ {
-			l, ok := g.lit(fmt.Sprintf("(%s %s)", g.vc.d.accessor(typ, i), t), u.Field(i).Type(), qual)
-			if !ok {
-				return "", false
-			}
-			fs = append(fs, u.Field(i).Name()+": "+l)
-		}
-		return types.TypeString(typ, qual) + "{" + strings.Join(fs, ", ") + "}", true
+// ---------- counterexample replay ----------
+
+type replayGen struct {
+	vc      *VC
+	w       *World
+	ms      *modelSession
+	pkg     *types.Package
+	imports map[string]string // path -> name
+	reason  string
+	model   map[string]string
+	objs    map[string]string // ref value -> Go variable
+	stmts   []string
+	nvar    int
+}
+
+func (g *replayGen) qual(p *types.Package) string {
+	if p == g.pkg {
+		return ""
 	}
-	g.reason = "unsupported input type " + typ.String()
+	g.imports[p.Path()] = p.Name()
+	return p.Name()
+}
+
+func (g *replayGen) val(term string) string {
+	v := g.ms.value(term)
+	g.model[term] = v
+	return v
+}
+
+func (g *replayGen) fail(format string, args ...interface{}) (string, bool) {
+	if g.reason == "" {
+		g.reason = fmt.Sprintf(format, args...)
+	}
 	return "", false
 }
 
-// generate builds a test for functions whose parameters are scalars / flat structs
-// (the shape of the arithmetic functions where quantifier-free models exist).
-func (g *replayGen) generate(o *Obligation) (string, bool) {
-	fn := g.vc.fn
-	pkg := fn.Pkg
-	if pkg == nil {
-		g.reason = "closure"
-		return "", false
+func exportedOrLocal(f *types.Var, pkg *types.Package) bool {
+	return f.Exported() || f.Pkg() == pkg
+}
+
+// expr builds a Go expression for the value of SMT term `term` of Go type typ in the entry state.
+func (g *replayGen) expr(term string, typ types.Type, depth int) (string, bool) {
+	if depth > 4 {
+		return g.fail("input nesting too deep")
 	}
-	qual := types.RelativeTo(pkg.Pkg)
-	imports := map[string]bool{}
-	qual2 := func(p *types.Package) string {
-		if p == pkg.Pkg {
-			return ""
+	ts := types.TypeString(typ, g.qual)
+	if named, ok := typ.(*types.Named); ok && named.Obj().Pkg() != nil && named.Obj().Pkg().Path() == "time" && named.Obj().Name() == "Time" {
+		if _, declared := g.vc.d.funs["spec.tns"]; !declared {
+			g.imports["time"] = "time"
+			return "time.Time{}", true
 		}
-		imports[p.Path()] = true
-		return p.Name()
+		ns, ok := smtNum(g.val("(spec.tns " + term + ")"))
+		if !ok {
+			return g.fail("no instant for time value")
+		}
+		g.imports["time"] = "time"
+		g.imports["math/big"] = "big"
+		return fmt.Sprintf("verifTime(%q)", ns), true
 	}
-	_ = qual
+	switch u := typ.Underlying().(type) {
+	case *types.Basic:
+		v := g.val(term)
+		switch {
+		case u.Info()&types.IsBoolean != 0:
+			if v != "true" && v != "false" {
+				return g.fail("no boolean model value for %s", term)
+			}
+			return v, true
+		case u.Info()&types.IsInteger != 0:
+			n, ok := smtNum(v)
+			if !ok {
+				return g.fail("no numeric model value for %s (%s)", term, v)
+			}
+			return fmt.Sprintf("%s(%s)", ts, n), true
+		case u.Info()&types.IsString != 0:
+			return `""`, true
+		}
+		return g.fail("unsupported basic type %s", typ)
+	case *types.Struct:
+		var fs []string
+		for i := 0; i < u.NumFields(); i++ {
+			f := u.Field(i)
+			ft := f.Type()
+			if !exportedOrLocal(f, g.pkg) {
+				continue // foreign unexported field: left zero
+			}
+			if isSyncType(ft) {
+				continue
+			}
+			l, ok := g.expr(fmt.Sprintf("(%s %s)", g.vc.d.accessor(typ, i), term), ft, depth+1)
+			if !ok {
+				return "", false
+			}
+			fs = append(fs, f.Name()+": "+l)
+		}
+		return ts + "{" + strings.Join(fs, ", ") + "}", true
+	case *types.Pointer:
+		rv, ok := smtNum(g.val(term))
+		if !ok {
+			return g.fail("no model value for pointer")
+		}
+		if rv == "0" {
+			return "nil", true
+		}
+		if v, ok := g.objs[rv+ts]; ok {
+			return v, true
+		}
+		if _, ok := isStruct(u.Elem()); ok {
+			lit, ok := g.structAt(rv, u.Elem(), depth+1)
+			if !ok {
+				return "", false
+			}
+			g.nvar++
+			vn := fmt.Sprintf("obj%d", g.nvar)
+			g.stmts = append(g.stmts, fmt.Sprintf("%s := &%s", vn, lit))
+			g.objs[rv+ts] = vn
+			return vn, true
+		}
+		return g.fail("pointer to %s", u.Elem())
+	case *types.Slice:
+		arr, _ := smtNum(g.val("(s-arr " + term + ")"))
+		if arr == "0" {
+			return "nil", true
+		}
+		n, ok := smtNum(g.val("(s-len " + term + ")"))
+		if !ok {
+			return g.fail("no slice length")
+		}
+		var ln int
+		fmt.Sscanf(n, "%d", &ln)
+		if ln > 24 {
+			return g.fail("model slice too long (%d)", ln)
+		}
+		off, _ := smtNum(g.val("(s-off " + term + ")"))
+		hn, _ := g.vc.d.elemHeap(u.Elem())
+		var els []string
+		for i := 0; i < ln; i++ {
+			et := fmt.Sprintf("(select (select %s!0 %s) (+ %s %d))", hn, arr, off, i)
+			if _, ok := g.vc.heapSorts[hn]; !ok {
+				els = append(els, zeroLit(u.Elem(), g.qual))
+				continue
+			}
+			l, ok := g.expr(et, u.Elem(), depth+1)
+			if !ok {
+				return "", false
+			}
+			els = append(els, l)
+		}
+		return ts + "{" + strings.Join(els, ", ") + "}", true
+	case *types.Array:
+		if u.Len() > 64 {
+			return g.fail("array too long")
+		}
+		var els []string
+		for i := int64(0); i < u.Len(); i++ {
+			l, ok := g.expr(fmt.Sprintf("(select %s %d)", term, i), u.Elem(), depth+1)
+			if !ok {
+				return "", false
+			}
+			els = append(els, l)
+		}
+		return ts + "{" + strings.Join(els, ", ") + "}", true
+	case *types.Signature, *types.Interface, *types.Chan:
+		rv, _ := smtNum(g.val(term))
+		if rv == "0" {
+			return "nil", true
+		}
+		return g.fail("non-nil %s input", typ)
+	case *types.Map:
+		rv, _ := smtNum(g.val(term))
+		if rv == "0" {
+			return "nil", true
+		}
+		return g.fail("map input")
+	}
+	return g.fail("unsupported input type %s", typ)
+}
+
+func isSyncType(t types.Type) bool {
+	s := t.String()
+	return strings.HasPrefix(s, "sync.") || strings.HasPrefix(s, "*sync.") || strings.HasPrefix(s, "sync/atomic.")
+}
+
+func zeroLit(t types.Type, q types.Qualifier) string {
+	switch t.Underlying().(type) {
+	case *types.Basic:
+		b := t.Underlying().(*types.Basic)
+		if b.Info()&types.IsBoolean != 0 {
+			return "false"
+		}
+		if b.Info()&types.IsString != 0 {
+			return `""`
+		}
+		return types.TypeString(t, q) + "(0)"
+	case *types.Struct, *types.Array:
+		return types.TypeString(t, q) + "{}"
+	}
+	return "nil"
+}
+
+// structAt builds a composite literal for the struct of type T stored at ref in the entry heap.
+func (g *replayGen) structAt(ref string, T types.Type, depth int) (string, bool) {
+	s, _ := isStruct(T)
+	ts := types.TypeString(T, g.qual)
+	var fs []string
+	for i := 0; i < s.NumFields(); i++ {
+		f := s.Field(i)
+		ft := f.Type()
+		if !exportedOrLocal(f, g.pkg) || isSyncType(ft) {
+			continue
+		}
+		if _, ok := isStruct(ft); ok {
+			en := g.vc.d.embName(T, i)
+			if _, ok := g.vc.d.funs[en]; !ok {
+				continue
+			}
+			er, ok := smtNum(g.val(fmt.Sprintf("(%s %s)", en, ref)))
+			if !ok {
+				continue
+			}
+			lit, ok := g.structAt(er, ft, depth+1)
+			if !ok {
+				return "", false
+			}
+			fs = append(fs, f.Name()+": "+lit)
+			continue
+		}
+		hn, _ := g.vc.d.fieldHeap(T, i)
+		if _, ok := g.vc.heapSorts[hn]; !ok {
+			continue // never read: zero
+		}
+		l, ok := g.expr(fmt.Sprintf("(select %s!0 %s)", hn, ref), ft, depth+1)
+		if !ok {
+			return "", false
+		}
+		fs = append(fs, f.Name()+": "+l)
+	}
+	return ts + "{" + strings.Join(fs, ", ") + "}", true
+}
+
+// scalarLeaves lists printable Go expressions for the scalar fields reachable from a value.
+func (g *replayGen) scalarLeaves(goExpr string, smtRef string, T types.Type, st *State, depth int, out *[][2]string) {
+	if depth > 3 {
+		return
+	}
+	s, ok := isStruct(T)
+	if !ok {
+		return
+	}
+	for i := 0; i < s.NumFields(); i++ {
+		f := s.Field(i)
+		ft := f.Type()
+		if !exportedOrLocal(f, g.pkg) || isSyncType(ft) {
+			continue
+		}
+		if _, ok := isStruct(ft); ok {
+			en := g.vc.d.embName(T, i)
+			if _, ok := g.vc.d.funs[en]; !ok {
+				continue
+			}
+			g.scalarLeaves(goExpr+"."+f.Name(), fmt.Sprintf("(%s %s)", en, smtRef), ft, st, depth+1, out)
+			continue
+		}
+		if b, ok := ft.Underlying().(*types.Basic); ok && b.Info()&(types.IsInteger|types.IsBoolean) != 0 {
+			hn, hs := g.vc.d.fieldHeap(T, i)
+			if _, ok := g.vc.heapSorts[hn]; !ok {
+				continue
+			}
+			*out = append(*out, [2]string{goExpr + "." + f.Name(), fmt.Sprintf("(select %s %s)", g.vc.heap(st, hn, hs), smtRef)})
+		}
+	}
+}
+
+func tryReplay(w *World, o *Obligation, repo, replayDir string) *replayResult {
+	vc := o.vc
+	rr := &replayResult{fields: map[string]interface{}{}}
+	if vc.fn == nil || vc.fn.Pkg == nil {
+		rr.fields["replay"] = "not a top-level function: no executable replay"
+		return rr
+	}
+	fn := vc.fn
+	ms, why := startModelSession(o.script(false))
+	if ms == nil {
+		rr.fields["replay"] = "no model from z3-new (" + why + ")"
+		return rr
+	}
+	defer ms.close()
+	g := &replayGen{vc: vc, w: w, ms: ms, pkg: fn.Pkg.Pkg, imports: map[string]string{"fmt": "fmt", "testing": "testing"}, model: map[string]string{}, objs: map[string]string{}}
 	var args []string
-	var recv string
 	params := fn.Params
-	if fn.Signature.Recv() != nil {
-		l, ok := g.lit(g.vc.vals[params[0]], params[0].Type(), qual2)
+	recv := ""
+	for i, p := range params {
+		l, ok := g.expr(vc.vals[p], p.Type(), 0)
 		if !ok {
-			return "", false
+			rr.fields["replay"] = "inputs cannot be built by the replay generator: " + g.reason
+			rr.fields["model"] = g.model
+			return rr
 		}
-		recv = l
-		params = params[1:]
-	}
-	for _, p := range params {
-		l, ok := g.lit(g.vc.vals[p], p.Type(), qual2)
-		if !ok {
-			return "", false
+		if i == 0 && fn.Signature.Recv() != nil {
+			recv = l
+			continue
 		}
 		args = append(args, l)
 	}
@@ -265,86 +489,150 @@ func (g *replayGen) generate(o *Obligation) (string, bool) {
 	if recv != "" {
 		call = "(" + recv + ")." + call
 	}
+	// predicted outcome
+	var ret *ssa.Return
+	if o.retInstr != nil {
+		ret = o.retInstr
+	}
 	nres := fn.Signature.Results().Len()
+	var predicted []string
+	var printed []string
+	if ret != nil {
+		for i, r := range ret.Results {
+			if b, ok := r.Type().Underlying().(*types.Basic); ok && b.Info()&(types.IsInteger|types.IsBoolean) != 0 {
+				v := g.val(vc.val(r))
+				if n, ok := smtNum(v); ok {
+					v = n
+				}
+				predicted = append(predicted, fmt.Sprintf("r%d=%s", i, v))
+				verb := "%v"
+				if b.Info()&types.IsInteger != 0 {
+					verb = "%d"
+				}
+				printed = append(printed, fmt.Sprintf("fmt.Sprintf(\"r%d=%s\", r%d)", i, verb, i))
+			} else if _, ok := r.Type().Underlying().(*types.Interface); ok {
+				v, _ := smtNum(g.val(vc.val(r)))
+				isnil := "false"
+				if v == "0" {
+					isnil = "true"
+				}
+				predicted = append(predicted, fmt.Sprintf("r%d.isnil=%s", i, isnil))
+				printed = append(printed, fmt.Sprintf("fmt.Sprintf(\"r%d.isnil=%%v\", r%d == nil)", i, i))
+			}
+		}
+		if o.st != nil {
+			for i, p := range params {
+				pt, ok := p.Type().Underlying().(*types.Pointer)
+				if !ok {
+					continue
+				}
+				rv, ok := smtNum(g.val(vc.vals[p]))
+				if !ok || rv == "0" {
+					continue
+				}
+				goName := g.objs[rv+types.TypeString(p.Type(), g.qual)]
+				if goName == "" {
+					continue
+				}
+				var leaves [][2]string
+				g.scalarLeaves(goName, vc.vals[p], pt.Elem(), o.st, 0, &leaves)
+				_ = i
+				for _, lf := range leaves {
+					v := g.val(lf[1])
+					if n, ok := smtNum(v); ok {
+						v = n
+					}
+					predicted = append(predicted, fmt.Sprintf("%s=%s", lf[0], v))
+					printed = append(printed, fmt.Sprintf("fmt.Sprintf(\"%s=%%v\", %s)", lf[0], lf[0]))
+				}
+			}
+		}
+	}
+	rr.fields["model"] = g.model
+	rr.fields["predicted_outcome"] = predicted
+	// test source
 	var sb strings.Builder
-	sb.WriteString("package " + pkg.Pkg.Name() + "\n\nimport (\n\t\"fmt\"\n\t\"testing\"\n")
-	for ip := range imports {
-		sb.WriteString("\t\"" + ip + "\"\n")
+	sb.WriteString("package " + fn.Pkg.Pkg.Name() + "\n\nimport (\n")
+	var ips []string
+	for p := range g.imports {
+		ips = append(ips, p)
+	}
+	sort.Strings(ips)
+	for _, p := range ips {
+		sb.WriteString(fmt.Sprintf("\t%s %q\n", g.imports[p], p))
 	}
 	sb.WriteString(")\n\n")
-	sb.WriteString("func TestVerifReplay(t *testing.T) {\n")
-	sb.WriteString("\tdefer func() {\n\t\tif r := recover(); r != nil {\n\t\t\tfmt.Println(\"REPLAY-OUTCOME panic:\", r)\n")
-	if o.Kind == "panics.site" || strings.HasPrefix(o.Kind, "safety") || o.Kind == "panic.unreachable" {
-		sb.WriteString("\t\t\tfmt.Println(\"REPLAY-VIOLATED: the real function panics on this input\")\n")
+	if _, ok := g.imports["math/big"]; ok {
+		sb.WriteString("func verifTime(ns string) time.Time {\n\tn, _ := new(big.Int).SetString(ns, 10)\n\tsec, nsec := new(big.Int).DivMod(n, big.NewInt(1000000000), new(big.Int))\n\treturn time.Unix(sec.Int64(), nsec.Int64())\n}\n\n")
 	}
-	sb.WriteString("\t\t}\n\t}()\n")
+	sb.WriteString("func TestVerifReplay(t *testing.T) {\n")
+	for _, s := range g.stmts {
+		sb.WriteString("\t" + s + "\n")
+	}
+	sb.WriteString("\tdefer func() {\n\t\tif r := recover(); r != nil {\n\t\t\tfmt.Println(\"REPLAY-OUTCOME panic:\", r)\n\t\t}\n\t}()\n")
 	var rs []string
 	for i := 0; i < nres; i++ {
 		rs = append(rs, fmt.Sprintf("r%d", i))
 	}
 	if nres > 0 {
 		sb.WriteString("\t" + strings.Join(rs, ", ") + " := " + call + "\n")
-		sb.WriteString("\tfmt.Println(\"REPLAY-OUTCOME returned:\", " + strings.Join(rs, ", ") + ")\n")
+		for _, r := range rs {
+			sb.WriteString("\t_ = " + r + "\n")
+		}
 	} else {
-		sb.WriteString("\t" + call + "\n\tfmt.Println(\"REPLAY-OUTCOME returned\")\n")
+		sb.WriteString("\t" + call + "\n")
 	}
-	// compare with the outcome predicted by the solver for the results
-	if o.Kind == "ensures" || o.Kind == "panics.return" {
-		// the predicted results are queried separately
-		pred := g.predictedResults(o)
-		if pred != nil && len(pred) == nres {
-			var conds []string
-			for i, p := range pred {
-				conds = append(conds, fmt.Sprintf("fmt.Sprint(r%d) == %q", i, p))
-			}
-			if len(conds) > 0 {
-				sb.WriteString("\tif " + strings.Join(conds, " && ") + " {\n\t\tfmt.Println(\"REPLAY-VIOLATED: real results equal the results the solver showed to falsify the clause\")\n\t}\n")
-			}
-		}
-		if o.Kind == "panics.return" {
-			sb.WriteString("\tfmt.Println(\"REPLAY-VIOLATED: the real function returns normally on an input the contract says must be rejected\")\n")
-		}
+	sb.WriteString("\tfmt.Println(\"REPLAY-OUTCOME returned\")\n")
+	for _, p := range printed {
+		sb.WriteString("\tfmt.Println(\"REPLAY-REAL\", " + p + ")\n")
 	}
 	sb.WriteString("}\n")
-	return sb.String(), true
-}
-
-func (g *replayGen) predictedResults(o *Obligation) []string {
-	vc := g.vc
-	// find the return instruction of the obligation's block: results of the unique Return whose reach is o.reach
-	var ret *ssa.Return
-	for _, b := range vc.fn.Blocks {
-		if vc.reach[b] == o.reach {
-			if r, ok := b.Instrs[len(b.Instrs)-1].(*ssa.Return); ok {
-				ret = r
+	src := sb.String()
+	rr.fields["replay_test"] = src
+	pkgDir := strings.TrimPrefix(fn.Pkg.Pkg.Path(), strings.TrimSuffix(modPrefix, "/"))
+	pkgDir = strings.TrimPrefix(pkgDir, "/")
+	outp, _ := runOverlayTest(repo, pkgDir, "zz_verif_replay_test.go", src, "TestVerifReplay", 60*time.Second)
+	rr.fields["replay_output"] = truncate(outp, 3000)
+	rr.fields["replay_cmd"] = "go test -overlay <zz_verif_replay_test.go injected> -vet=off -run TestVerifReplay ./" + pkgDir
+	if !strings.Contains(outp, "REPLAY-OUTCOME") {
+		rr.fields["replay"] = "replay test did not run"
+		return rr
+	}
+	panicked := strings.Contains(outp, "REPLAY-OUTCOME panic")
+	switch {
+	case strings.HasPrefix(o.Kind, "safety") || o.Kind == "panic.unreachable" || o.Kind == "panics.site" || strings.HasSuffix(o.Kind, ".nopanic"):
+		if panicked {
+			rr.confirmed = true
+			rr.fields["replay"] = "confirmed: the real function panics on the solver's input"
+		} else {
+			rr.fields["replay"] = "not confirmed: the real function did not panic on this input"
+		}
+	case o.Kind == "panics.return":
+		if !panicked {
+			rr.confirmed = true
+			rr.fields["replay"] = "confirmed: the real function returns normally on an input the contract says must be rejected"
+		} else {
+			rr.fields["replay"] = "not confirmed"
+		}
+	case o.Kind == "ensures" || o.Kind == "frame":
+		if panicked || len(predicted) == 0 {
+			rr.fields["replay"] = "not confirmed: outcome not comparable"
+			break
+		}
+		all := true
+		for _, p := range predicted {
+			if !strings.Contains(outp, "REPLAY-REAL "+p+"\n") {
+				all = false
 			}
 		}
-	}
-	if ret == nil {
-		return nil
-	}
-	var terms []string
-	for _, r := range ret.Results {
-		if _, ok := r.Type().Underlying().(*types.Basic); !ok {
-			return nil
-		}
-		terms = append(terms, vc.val(r))
-	}
-	script := o.script(false)
-	m, _ := getModel(script, append(terms, g.inputPins()...), o.Result.Solver, 20)
-	if m == nil {
-		return nil
-	}
-	var res []string
-	for _, t := range terms {
-		v := m[t]
-		if n, ok := smtNum(v); ok {
-			res = append(res, n)
+		if all {
+			rr.confirmed = true
+			rr.fields["replay"] = "confirmed: the real outcome equals the outcome the solver showed to falsify the clause"
 		} else {
-			res = append(res, v)
+			rr.fields["replay"] = "ENGINE-MISMATCH or unmodelled nondeterminism: real outcome differs from the predicted one"
 		}
+	default:
+		rr.fields["replay"] = "executed; obligation kind " + o.Kind + " has no executable confirmation"
 	}
-	return res
+	return rr
 }
-
-func (g *replayGen) inputPins() []string { return nil }
